@@ -164,4 +164,28 @@ theorem lookup_of_mem_nodup {α β} [BEq α] [LawfulBEq α] (l : List (α × β)
       simp only [List.lookup, this]
       exact ih h.2 hm
 
+
+/-! ### datasets -/
+
+theorem reread_samples (s : C01.Src) : (reread s).samples = s.samples := by
+  cases s <;> rfl
+
+
+theorem reread_idem (s : C01.Src) : reread (reread s) = reread s := by
+  cases s <;> rfl
+
+
+theorem crop_cont_dt (s : C01.Src) (a b : Int) (c' : C01.Cont) (h : cropChannel s a b = .cont c') :
+    ∃ c, s = .cont c ∧ c'.dt = c.dt := by
+  unfold cropChannel C01.Src.getitem at h
+  cases s with
+  | cont c =>
+    refine ⟨c, rfl, ?_⟩
+    split at h
+    · simp only [C01.Src.cont.injEq] at h; rw [h]
+    · simp only [C01.Src.slice, C01.Src.cont.injEq] at h; rw [← h]; rfl
+  | ts l => split at h <;> simp [C01.Src.slice] at h
+  | tags t => split at h <;> simp [C01.Src.slice] at h
+
+
 end Verif.C05
